@@ -9,9 +9,9 @@
    Specification (what the server computes): [murmur3_spec] = Cassandra's
    MurmurHash.hash3_x64_128 (seed 0, first long), [j_normalize], [cdc_token_spec],
    [spec_serialized_key], [spec_components], [spec_token]. *)
-From SV Require Import Base.Prelude Base.Bytes Model.Cql Model.Shard Model.Murmur Model.PartKey Model.PartName
-  Model.PartKeyTyped.
-From SV Require Import Proofs.Murmur_proofs Proofs.PartKey_proofs Proofs.PartName_proofs
+From SV Require Import Base.Prelude Base.Bytes Model.Cql Model.Shard Model.Murmur Model.MurmurRef Model.PartKey
+  Model.PartName Model.PartKeyTyped.
+From SV Require Import Proofs.Murmur_proofs Proofs.MurmurRef_proofs Proofs.PartKey_proofs Proofs.PartName_proofs
   Proofs.TokenRing_proofs Proofs.PartKeyTyped_proofs.
 Open Scope N_scope.
 
@@ -34,6 +34,24 @@ Proof. exact m3_chunking_all. Qed.
 Theorem C03_feed_all : forall p (chunks : list bytes), feed p chunks = token_spec p (concat chunks).
 Proof. exact feed_chunking_all. Qed.
 
+(* ---- a second, independent formulation of the specification (Model/MurmurRef.v) ----------
+   Appleby's published MurmurHash3_x64_128 in unsigned 64-bit arithmetic, walking the data block
+   by block with a descending tail loop, plus Cassandra's signed tail bytes: for every byte
+   string it is the unsigned reading of the Java-style hash3_x64_128, both halves *)
+Theorem C03_reference : forall key : bytes, bytes_ok key ->
+  u_hash3_x64_128 key =
+  ((fst (hash3_x64_128 key) mod 2 ^ 64)%Z, (snd (hash3_x64_128 key) mod 2 ^ 64)%Z).
+Proof. exact u_hash3_spec. Qed.
+
+Theorem C03_reference_token : forall key : bytes, bytes_ok key ->
+  u_token key = murmur3_token_spec key.
+Proof. exact u_token_spec. Qed.
+
+(* the streaming hasher of the driver against that reference, for every chunking *)
+Theorem C03_chunking_reference : forall chunks : list bytes, bytes_ok (concat chunks) ->
+  m3_finish (fold_left m3_write chunks m3_init) = u_token (concat chunks).
+Proof. exact m3_chunking_reference. Qed.
+
 (* for EVERY list of chunks the CDC hasher returns the CDC token of the concatenation *)
 Theorem C03_cdc_chunking : forall chunks : list bytes,
   cdc_finish (fold_left cdc_write chunks cdc_init) = cdc_token_spec (concat chunks).
@@ -45,6 +63,15 @@ Theorem C03_cdc : forall key : bytes,
   ((8 <= length key)%nat -> cdc_token_spec key = j_normalize (dec_signed (firstn 8 key))) /\
   ((length key < 8)%nat -> cdc_token_spec key = (- 2 ^ 63)%Z).
 Proof. exact (fun key => conj (cdc_token_long key) (cdc_token_short key)). Qed.
+
+(* the CDC token written out (content for C03_cdc, which only unfolds the definition): the first
+   eight bytes as one big-endian two's complement integer, MIN -> MAX *)
+Theorem C03_cdc_explicit : forall key : bytes, bytes_ok key -> (8 <= length key)%nat ->
+  let b i := Z.of_N (nth i key 0) in
+  cdc_token_spec key =
+  j_normalize (jlong (b 0%nat * 2 ^ 56 + b 1%nat * 2 ^ 48 + b 2%nat * 2 ^ 40 + b 3%nat * 2 ^ 32
+                      + b 4%nat * 2 ^ 24 + b 5%nat * 2 ^ 16 + b 6%nat * 2 ^ 8 + b 7%nat)%Z).
+Proof. exact cdc_token_explicit. Qed.
 
 (* a CDC stream id is 16 bytes; for such keys the token is the normalised big-endian i64 of the
    first 8 bytes under every reading of the CDC partitioner (see docs/C03.md, "CDC") *)
@@ -64,6 +91,20 @@ Proof. exact from_str_cdc. Qed.
 Theorem C03_from_str_murmur3 : forall s,
   ends_with s murmur3_suffix = true -> partitioner_from_str s = Some PMurmur3.
 Proof. exact from_str_murmur3. Qed.
+
+(* exact characterisation of PartitionerName::from_str *)
+Theorem C03_from_str_cdc_iff : forall s,
+  partitioner_from_str s = Some PCdc <-> ends_with s cdc_suffix = true.
+Proof. exact from_str_cdc_iff. Qed.
+
+Theorem C03_from_str_murmur3_iff : forall s,
+  partitioner_from_str s = Some PMurmur3 <-> ends_with s murmur3_suffix = true.
+Proof. exact from_str_murmur3_iff. Qed.
+
+Theorem C03_from_str_none_iff : forall s,
+  partitioner_from_str s = None <->
+  ends_with s cdc_suffix = false /\ ends_with s murmur3_suffix = false.
+Proof. exact from_str_none_iff. Qed.
 
 (* "tables using the CDC partitioner get the CDC token", for every chunking of the key *)
 Theorem C03_cdc_table : forall s (chunks : list bytes),
@@ -216,6 +257,31 @@ Theorem C03_murmur3_table_fetch_modes : forall fm has_columns r1 r2 ks t name (c
   = murmur3_token_spec (concat chunks).
 Proof. exact murmur3_table_fetch_modes. Qed.
 
+(* exact characterisation of the HashMap lookup: it returns p exactly when the rows are
+   r1 ++ ((ks,t),p) :: r2 with no row of (ks,t) in r2, and nothing exactly when no row matches *)
+Theorem C03_partitioners_get_some_iff : forall rows ks t p,
+  partitioners_get rows ks t None = Some p <->
+  exists r1 r2, rows = r1 ++ ((ks, t), p) :: r2 /\
+                forallb (fun x => negb (row_is ks t x)) r2 = true.
+Proof. exact partitioners_get_some_iff. Qed.
+
+Theorem C03_partitioners_get_none_iff : forall rows ks t,
+  partitioners_get rows ks t None = None <-> forallb (fun x => negb (row_is ks t x)) rows = true.
+Proof. exact partitioners_get_none_iff. Qed.
+
+(* exact characterisation of the partitioner a Session gives a prepared statement (content for the
+   two definitional fetch-mode theorems): CDC exactly when schema fetching is Minimal or (Full and
+   the table has column rows), the table is listed, and the last scylla_tables row of the table
+   names a class ending in CDCPartitioner; in every other case Murmur3 *)
+Theorem C03_session_partitioner_cdc_iff : forall fm st in_tables has_columns spec,
+  session_partitioner fm st in_tables has_columns spec = PCdc <->
+  (fm = FetchMinimal \/ (fm = FetchFull /\ has_columns = true)) /\ in_tables = true /\
+  exists rows ks t r1 r2 name,
+    st = Some rows /\ spec = Some (ks, t) /\
+    rows = r1 ++ ((ks, t), Some name) :: r2 /\
+    forallb (fun x => negb (row_is ks t x)) r2 = true /\ ends_with name cdc_suffix = true.
+Proof. exact session_partitioner_cdc_iff. Qed.
+
 (* ---- typed values (serialize_values + C01's encoder) ----------------------------------- *)
 (* the typed calculate_token / compute_partition_key are the token / serialized key of the
    serialized row ... *)
@@ -349,6 +415,17 @@ Example C03_ex_signed_tail_model :
   hash_one PMurmur3 v_mix31 = (-2660492343151653474)%Z /\
   hash_one PMurmur3 v_ff47 = 412418349843382352%Z /\
   hash_one PMurmur3 v_desc25 = 4712412279767989472%Z.
+Proof. repeat split; vm_compute; reflexivity. Qed.
+
+(* the unsigned reference on the published digest of the pangram (e34bbc7bbc071b6c 7a433ca9c49a9347),
+   on mmh3.hash128("foo") = h2 * 2^64 + h1, and on the JVM vectors with signed tail bytes *)
+Example C03_ex_reference :
+  u_hash3_x64_128 v_fox = (0xe34bbc7bbc071b6c, 0x7a433ca9c49a9347)%Z /\
+  (snd (u_hash3_x64_128 v_foo) * 2 ^ 64 + fst (u_hash3_x64_128 v_foo)
+   = 168394135621993849475852668931176482145)%Z /\
+  u_token v_hi15 = 63099782945186636%Z /\ u_token v_mix31 = (-2660492343151653474)%Z /\
+  u_token v_ff47 = 412418349843382352%Z /\ u_token v_desc25 = 4712412279767989472%Z /\
+  u_token v_kremowki = 4354931215268080151%Z.
 Proof. repeat split; vm_compute; reflexivity. Qed.
 
 (* the normalisation and the CDC rule on concrete values *)
@@ -507,6 +584,16 @@ Example C03_ex_too_long :
 Proof. vm_compute. reflexivity. Qed.
 
 Print Assumptions C03_chunking.
+Print Assumptions C03_reference.
+Print Assumptions C03_reference_token.
+Print Assumptions C03_chunking_reference.
+Print Assumptions C03_cdc_explicit.
+Print Assumptions C03_from_str_cdc_iff.
+Print Assumptions C03_from_str_murmur3_iff.
+Print Assumptions C03_from_str_none_iff.
+Print Assumptions C03_partitioners_get_some_iff.
+Print Assumptions C03_partitioners_get_none_iff.
+Print Assumptions C03_session_partitioner_cdc_iff.
 Print Assumptions C03_chunking_all.
 Print Assumptions C03_feed_all.
 Print Assumptions C03_token_all.
